@@ -36,7 +36,7 @@ RULE = (
     "says only 'the ellipse equation for radius/cellsize' and is silent on rounding; the TRUNCATION of radius/cellsize to whole cells before "
     "the ellipse equation is taken from the docstring example circle_kernel(1, 2, 3) and the code (decision recorded: no conflict with the "
     "statement); everything else (0/1 mask of the ellipse equation, flip symmetry, odd shape, outer minus centred inner, never negative) is "
-    "from the statement. The oracle evaluates radius*factor/cellsize in exact rationals; when that quotient lies within 4 eps of an integer "
+    "from the statement. The oracle evaluates radius*factor/cellsize in exact rationals; when that quotient lies within 16 eps of an integer "
     "and the double evaluation is not exact, either neighbouring half-width is accepted and the case is counted as ambiguous - unless the radius "
     "is a whole multiple n of the cell size as written in decimal (1 over 0.1-wide cells) and the rounded double quotient lies in [n, n+1): then n "
     "is required. Cases where the "
@@ -277,19 +277,21 @@ def _half_widths(m_exact, m_fl, m_is_exact, cell):
     """Allowed truncated half-widths int(r/cell): ([allowed], ambiguous?, exact quotient)."""
     q = m_exact / Fraction(cell)
     n = int(q + Fraction(1, 2))
-    inband = abs(q - n) <= 4 * Fraction(EPS) * q
+    inband = abs(q - n) <= 16 * Fraction(EPS) * q   # parse, unit conversion, division and any "snap to a whole cell within a few ulps" all live inside this band
     fl = q.numerator // q.denominator
     if not inband:
         return [fl], False, q
     qf = m_fl / cell
-    if m_is_exact and Fraction(qf) == q:
-        return [fl], False, q
+    if m_is_exact and Fraction(qf) == q and q >= n:
+        return [fl], False, q     # at / a hair above a whole number of cells and evaluated exactly: truncation and any snapping agree on n
     # The radius is a whole multiple n of the cell size AS WRITTEN (shortest decimal reading of the cell size, e.g. radius 1 over 0.1-wide
     # cells, n = 10) although the binary double 0.1 is a hair above 1/10: the circle is n cells wide whenever the correctly rounded double
     # quotient lands in [n, n+1) - the cell one radius away along the axis belongs to it.  (When the double quotient itself falls short,
     # 0.3/0.1 = 2.9999999999999996, the case stays ambiguous.)
     if m_is_exact and m_exact / Fraction(Decimal(repr(float(cell)))) == n and n <= qf < n + 1:
         return [n], False, q
+    # a hair BELOW a whole number n of cells (7.999999999999993 over unit cells), or evaluated inexactly: the statement is silent on whether
+    # that is n-1 cells (truncation, the docstring's convention) or n (snapping a quotient a few ulps short of a whole number) - both accepted
     return sorted({max(n - 1, 0), n}), True, q
 
 
@@ -410,6 +412,8 @@ def body_annulus(case, ctx):
         return r
     # equal radii written differently may round to different half-widths inside the band: then "inner fits in outer" is itself undecided
     fit_amb = max(ihws) > min(ohws) or max(ihhs) > min(ohhs)
+    if so != si and abs(mi - mo) <= 16 * Fraction(EPS) * mo:
+        fit_amb = True   # the same length written twice (1.64 feet and 0.499872 m): which of the two doubles is larger is a matter of rounding
     try:
         k = annulus_kernel(cx, cy, ao, ai)
     except ValueError:
